@@ -37,6 +37,11 @@ theorem decode_encode (m : Msg) (h : WF m) (rest : Bytes) :
       List.take_left', List.drop_left', hvalid, hsplit]
     cases ua <;> simp
 
+theorem wfBool_iff (m : Msg) : wfBool m = true ↔ WF m := by
+  cases m with
+  | request => simp [wfBool, WF]
+  | message m => simp [wfBool, WF, and_assoc]
+
 /-- the case excluded by `WF`: an empty version list is sent as the empty text and decodes as `[""]` -/
 theorem empty_versions_not_preserved (ua : Bool) (rest : Bytes) :
     decode (encode (.message ⟨ua, []⟩) ++ rest) (size (.message ⟨ua, []⟩))
